@@ -1852,7 +1852,6 @@ impl PeerConnection {
                 } else {
                     let kind = section.kind;
                     let direction: TransceiverDirection = section.direction.into();
-                    let direction = direction.answer_direction();
                     let t = Arc::new(RtpTransceiver::new(kind, direction));
                     t.set_mid(mid.clone());
 
